@@ -29,7 +29,13 @@ def run_property(prop, tier='quick', seed=0, root=None, overlay=None, quiet=Fals
         mod = importlib.import_module('checks.' + prop.lower())
         mod.run(repo, rep)
         if tier == 'thorough' and write and not overlay:
-            selfvalidate(prop, rep)
+            from engine.report import load_known
+            known = {(k['rule'], k['construct']) for k in load_known() if k.get('property') == prop}
+            if any((i.rule, i.construct) not in known for i in rep.violations()):
+                rep.note('self-validation skipped: the tree under analysis already violates the property (variants are judged '
+                         'relative to a clean base)')
+            else:
+                selfvalidate(prop, rep)
     except AnalysisError as e:
         rep.error(str(e))
     except Exception as e:  # internal error: exit 2, never 1
@@ -42,8 +48,10 @@ def _variant_job(args):
     name, prop = args
     from selftest.variants import VARIANTS
     from selftest.harness import run_variant, Variant
+    import copy
     v = [x for x in VARIANTS if x.name == name][0]
-    one = Variant(prop, v.kind, v.name, v.edits, v.expect_rule, v.note)
+    one = copy.copy(v)
+    one.prop = prop
     st, d = run_variant(one, 'quick')
     return name, v.kind, st, d[:300]
 
